@@ -127,6 +127,7 @@ type sessionEnv struct {
 
 	// concurrent mode: this env belongs to one connection
 	priv        []string // its private subtree
+	ownChunks   map[string]bool // names of the payloads this connection uploaded
 	shared      []nodeJ  // the static rest of the tree
 	staticViews []map[string]interface{}
 	barrier     *barrier
@@ -138,17 +139,17 @@ func (env *sessionEnv) snap() ([]nodeJ, string, error) {
 	if env.priv == nil {
 		return env.w.snapshot()
 	}
-	all, _, err := env.w.snapshot()
+	// only this connection's subtree is walked (the others are changing under their owners' hands), and only this
+	// connection's uploads may explain what is found there
+	all, _, err := env.w.snapshotAt(env.priv, func(name string) bool { return env.ownChunks[name] })
 	if err != nil {
 		return nil, "", err
 	}
 	nodes := append([]nodeJ{}, env.shared...)
 	h := sha256.New()
 	for _, n := range all {
-		if len(n.P) >= len(env.priv) && equalSegs(n.P[:len(env.priv)], env.priv) {
-			nodes = append(nodes, n)
-			fmt.Fprintf(h, "%v|%s|%v|%s|%d|%d\n", n.P, n.Kind, n.Size, n.Cid, n.Mtime, n.Ctime)
-		}
+		nodes = append(nodes, n)
+		fmt.Fprintf(h, "%v|%s|%v|%s|%d|%d\n", n.P, n.Kind, n.Size, n.Cid, n.Mtime, n.Ctime)
 	}
 	return nodes, hex.EncodeToString(h.Sum(nil)), nil
 }
@@ -239,7 +240,8 @@ func (env *sessionEnv) runConcurrent(nodes []nodeJ, views []map[string]interface
 		sub.staticViews = views
 		sub.barrier = bar
 		sub.chunkTag = nil
-		sub.chunkNo = cj.ID * 16 // distinct first bytes across connections
+		sub.ownChunks = map[string]bool{}
+		sub.chunkNo = cj.ID * 16
 		first, fp, err := sub.snap()
 		if err != nil {
 			return err
@@ -670,6 +672,9 @@ func (env *sessionEnv) buildFrame(r *reqJ) ([]byte, map[string]interface{}, erro
 		}
 		if len(follow) > 0 {
 			env.reg.add(&memSource{name: r.Chunk, data: follow})
+			if env.ownChunks != nil {
+				env.ownChunks[r.Chunk] = true
+			}
 		}
 		req["plen"] = len(follow)
 		req["chunk"] = r.Chunk
